@@ -5,6 +5,7 @@ package esgen
 
 import (
 	"fmt"
+	"sort"
 
 	"github.com/Eyevinn/mp4ff/hevc"
 	"pgregory.net/rapid"
@@ -732,6 +733,14 @@ func HEVCGenSPS(t *rapid.T, o HEVCSPSOpts, l string) *nalgen.HEVCSPSTree {
 		if HEVCPct(t, 6, l+"e4?") {
 			s.Extension4bits = uint8(rapid.IntRange(1, 15).Draw(t, l+"e4"))
 		}
+		s.MultilayerExtensionFlag = HEVCPct(t, 20, l+"mlext")
+		s.D3ExtensionFlag = HEVCPct(t, 20, l+"3dext")
+	}
+	if s.MultilayerExtensionFlag {
+		s.MultilayerExtension = &hevc.SPSMultilayerExtension{InterViewMvVertConstraintFlag: rapid.Bool().Draw(t, l+"mlivmv")}
+	}
+	if s.D3ExtensionFlag {
+		s.D3Extension = HEVCGenSPS3dExt(t, int(s.Log2MinLumaCodingBlockSizeMinus3), ctbLog2-3, l+"3d")
 	}
 	if s.RangeExtensionFlag {
 		b := HEVCBits(t, 9, l+"rextbits")
@@ -789,6 +798,25 @@ func HEVCGenSPS(t *rapid.T, o HEVCSPSOpts, l string) *nalgen.HEVCSPSTree {
 		}
 	}
 	return tr
+}
+
+// HEVCGenSPS3dExt draws sps_3d_extension(): 14 flags and the two log2 sub-block sizes (I.7.4.3.2.5: in the range
+// MinCbLog2SizeY − 3 .. CtbLog2SizeY − 3; now and then any small ue(v) value).
+func HEVCGenSPS3dExt(t *rapid.T, lo, hi int, l string) *hevc.SPS3dExtension {
+	b := HEVCBits(t, 14, l+"bits")
+	size := func(lab string) uint {
+		if HEVCPct(t, 15, l+lab+"?") {
+			return uint(HEVCInt(t, 0, 40, l+lab))
+		}
+		return uint(rapid.IntRange(lo, HEVCMax(lo, hi)).Draw(t, l+lab))
+	}
+	return &hevc.SPS3dExtension{
+		IvDiMcEnabledFlag0: b&1 != 0, IvMvScalEnabledFlag0: b&2 != 0, Og2IvmcSubPbSizeMinus3: size("ivmc"),
+		IvResPredEnabledFlag: b&4 != 0, DepthRefEnabledFlag: b&8 != 0, VspMcEnabledFlag: b&16 != 0, DbbpEnabledFlag: b&32 != 0,
+		IvDiMcEnabledFlag1: b&64 != 0, IvMvScalEnabledFlag1: b&128 != 0, TexMcEnabledFlag: b&256 != 0, Log2TexmcSubPbSizeMinus3: size("texmc"),
+		IntraContourEnabledFlag: b&512 != 0, IntraDcOnlyWedgeEnabledFlag: b&1024 != 0, CqtCuPartPredEnabledFlag: b&2048 != 0,
+		InterDcOnlyEnabledFlag: b&4096 != 0, SkipIntraEnabledFlag: b&8192 != 0,
+	}
 }
 
 func HEVCMin(a, b int) int {
@@ -862,6 +890,8 @@ func HEVCSPSClasses(tr *nalgen.HEVCSPSTree) []string {
 	}
 	add(s.ExtensionPresentFlag, "hevc-sps-extension")
 	add(s.RangeExtensionFlag, "hevc-sps-range-ext")
+	add(s.MultilayerExtensionFlag, "hevc-sps-multilayer-ext")
+	add(s.D3ExtensionFlag, "hevc-sps-3d-ext")
 	add(s.SccExtensionFlag, "hevc-sps-scc-ext")
 	if e := s.SccExtension; e != nil {
 		add(e.PaletteModeEnabledFlag, "hevc-sps-scc-palette")
@@ -982,6 +1012,14 @@ func HEVCGenPPS(t *rapid.T, spsT *nalgen.HEVCSPSTree, id int, l string) *nalgen.
 		if HEVCPct(t, 6, l+"e4?") {
 			p.Extension4bits = uint8(rapid.IntRange(1, 15).Draw(t, l+"e4"))
 		}
+		p.MultilayerExtensionFlag = HEVCPct(t, 20, l+"mlext")
+		p.D3ExtensionFlag = HEVCPct(t, 20, l+"3dext")
+	}
+	if p.MultilayerExtensionFlag {
+		p.MultilayerExtension, tr.CmOctants = HEVCGenPPSMultilayerExt(t, l+"ml")
+	}
+	if p.D3ExtensionFlag {
+		p.D3Extension = HEVCGenPPS3dExt(t, l+"3d")
 	}
 	if p.RangeExtensionFlag {
 		e := &hevc.RangeExtension{}
@@ -1057,6 +1095,314 @@ func HEVCGenPPS(t *rapid.T, spsT *nalgen.HEVCSPSTree, id int, l string) *nalgen.
 	return tr
 }
 
+// ---------------------------------------------------------------------------------------------
+// pps_multilayer_extension (F.7.3.2.3.4), colour_mapping_table / colour_mapping_octants (F.7.3.2.3.5/6)
+
+// HEVCGenPPSMultilayerExt draws pps_multilayer_extension() and, when colour mapping is enabled, the coding tree of
+// colour_mapping_octants(). ColourMappingTable.Octants is filled with the flattened tree (nalgen.HEVCCmOctantMap).
+func HEVCGenPPSMultilayerExt(t *rapid.T, l string) (*hevc.MultilayerExtension, *nalgen.HEVCCmOctant) {
+	e := &hevc.MultilayerExtension{}
+	e.PocResetInfoPresentFlag = rapid.Bool().Draw(t, l+"poc")
+	e.InferScalingListFlag = rapid.Bool().Draw(t, l+"isl")
+	if e.InferScalingListFlag {
+		e.ScalingListRefLayerId = uint8(HEVCInt(t, 0, 62, l+"islid")) // nuh_layer_id of the reference layer: 0..62
+	}
+	// num_ref_loc_offsets: 0..vps_max_layers_minus1 (<= 62)
+	var n int
+	switch k := HEVCUni(t, 10, l+"nrlo?"); {
+	case k < 3:
+		n = 0
+	case k < 5:
+		n = 1
+	case k < 9:
+		n = rapid.IntRange(2, 4).Draw(t, l+"nrlo")
+	default:
+		n = int(HEVCInt(t, 5, 62, l+"nrlo"))
+	}
+	e.NumRefLocOffsets = uint(n)
+	e.RefLocOffsets = map[uint8]hevc.RefLocOffset{}
+	off := func(lab string) int16 { return int16(HEVCInt(t, -16384, 16383, l+lab)) } // −2^14 .. 2^14 − 1
+	for _, id := range HEVCDistinct(t, n, 62, l+"rloid") {
+		e.RefLocOffsetLayerIds = append(e.RefLocOffsetLayerIds, uint8(id))
+		var o hevc.RefLocOffset
+		o.ScaledRefLayerOffsetPresentFlag = rapid.Bool().Draw(t, l+"srl")
+		if o.ScaledRefLayerOffsetPresentFlag {
+			o.ScaledRefLayerLeftOffset, o.ScaledRefLayerTopOffset = off("srll"), off("srlt")
+			o.ScaledRefLayerRightOffset, o.ScaledRefLayerBottomOffset = off("srlr"), off("srlb")
+		}
+		o.RefRegionOffsetPresentFlag = rapid.Bool().Draw(t, l+"rr")
+		if o.RefRegionOffsetPresentFlag {
+			o.RefRegionLeftOffset, o.RefRegionTopOffset = off("rrl"), off("rrt")
+			o.RefRegionRightOffset, o.RefRegionBottomOffset = off("rrr"), off("rrb")
+		}
+		o.ResamplePhaseSetPresentFlag = rapid.Bool().Draw(t, l+"rps")
+		if o.ResamplePhaseSetPresentFlag {
+			o.PhaseHorLuma = uint8(HEVCInt(t, 0, 31, l+"phl"))
+			o.PhaseVerLuma = uint8(HEVCInt(t, 0, 31, l+"pvl"))
+			o.PhaseHorChromaPlus8 = uint8(HEVCInt(t, 0, 63, l+"phc"))
+			o.PhaseVerChromaPlus8 = uint8(HEVCInt(t, 0, 63, l+"pvc"))
+		}
+		e.RefLocOffsets[uint8(id)] = o
+	}
+	e.ColourMappingEnabledFlag = HEVCPct(t, 55, l+"cm")
+	if !e.ColourMappingEnabledFlag {
+		return e, nil
+	}
+	cm := &hevc.ColourMappingTable{}
+	// num_cm_ref_layers_minus1: 0..61
+	if HEVCPct(t, 80, l+"cmnrl?") {
+		cm.NumCmRefLayersMinus1 = uint8(rapid.IntRange(0, 2).Draw(t, l+"cmnrl"))
+	} else {
+		cm.NumCmRefLayersMinus1 = uint8(HEVCInt(t, 0, 61, l+"cmnrl"))
+	}
+	for i := 0; i <= int(cm.NumCmRefLayersMinus1); i++ {
+		cm.RefLayerId = append(cm.RefLayerId, uint8(HEVCInt(t, 0, 62, l+"cmrl")))
+	}
+	// cm_octant_depth: u(2), 0..1 in conforming bitstreams; 2 and 3 rarely (the syntax is defined for them)
+	cm.OctantDepth = uint8(rapid.IntRange(0, 1).Draw(t, l+"cmdepth"))
+	if HEVCPct(t, 6, l+"cmdeep") {
+		cm.OctantDepth = uint8(rapid.IntRange(2, 3).Draw(t, l+"cmdepth23"))
+	}
+	cm.YPartNumLog2 = uint8(rapid.IntRange(0, 3).Draw(t, l+"cmypart"))
+	if cm.OctantDepth >= 2 && cm.YPartNumLog2 > 1 { // keeps the number of leaves bounded
+		cm.YPartNumLog2 &= 1
+	}
+	bd := func(lab string) uint { return uint(HEVCInt(t, 0, 8, l+lab)) }
+	cm.LumaBitDepthCmInputMinus8, cm.ChromaBitDepthCmInputMinus8 = bd("cmbdli"), bd("cmbdci")
+	cm.LumaBitDepthCmOutputMinus8, cm.ChromaBitDepthCmOutputMinus8 = bd("cmbdlo"), bd("cmbdco")
+	cm.ResQuantBits = uint8(rapid.IntRange(0, 3).Draw(t, l+"cmrq"))
+	cm.DeltaFlcBitsMinus1 = uint8(rapid.IntRange(0, 3).Draw(t, l+"cmflc"))
+	if cm.OctantDepth == 1 {
+		// CMThreshU = ( 1 << ( BitDepthCmInputC − 1 ) ) + cm_adapt_threshold_u_delta stays inside the chroma range
+		h := int64(1) << (7 + cm.ChromaBitDepthCmInputMinus8)
+		cm.AdaptThresholdUDelta = int(HEVCInt(t, -h, h-1, l+"cmthu"))
+		cm.AdaptThresholdVDelta = int(HEVCInt(t, -h, h-1, l+"cmthv"))
+	}
+	resLsBits := nalgen.HEVCCmResLsBits(cm)
+	partNumY := 1 << cm.YPartNumLog2
+	style := rapid.IntRange(0, 3).Draw(t, l+"cmstyle") // 0: no residual coded, 1: all vertices, 2, 3: mixed
+	budget := 700                                      // coded vertices
+	var gen func(depth int) nalgen.HEVCCmOctant
+	gen = func(depth int) nalgen.HEVCCmOctant {
+		var o nalgen.HEVCCmOctant
+		if depth < int(cm.OctantDepth) {
+			o.Split = depth == 0 && HEVCPct(t, 60, l+"cmsplit") || depth > 0 && HEVCPct(t, 40, l+"cmsplit")
+		}
+		if o.Split {
+			for q := 0; q < 8; q++ {
+				o.Sub = append(o.Sub, gen(depth+1))
+			}
+			return o
+		}
+		o.Leaves = make([][4]hevc.Octant, partNumY)
+		for i := range o.Leaves {
+			// per vertex j: 1 control byte, per component c: 1 byte for res_coeff_q, 3 bytes for res_coeff_r
+			bs := HEVCBytes(t, 4*13, l+"cmleaf")
+			for j := 0; j < 4; j++ {
+				ctl := bs[13*j]
+				coded := style == 1 || style >= 2 && ctl&1 != 0
+				if !coded || budget <= 0 {
+					continue
+				}
+				budget--
+				v := &o.Leaves[i][j]
+				v.CodedResFlag = true
+				for c := 0; c < 3; c++ {
+					x := bs[13*j+1+4*c:]
+					var q uint
+					switch qb := x[0]; {
+					case qb < 100:
+						q = 0
+					case qb < 160:
+						q = 1
+					case qb < 230:
+						q = uint(qb % 8)
+					case qb < 250:
+						q = uint(1)<<(qb%16) - uint(qb>>4&1)
+					default:
+						q = 65535
+					}
+					r := uint(x[1])<<16 | uint(x[2])<<8 | uint(x[3])
+					switch {
+					case x[1] < 80:
+						r = 0
+					case x[1] >= 240:
+						r = 1<<24 - 1
+					}
+					r &= uint(1)<<uint(resLsBits) - 1
+					v.CodedRes[c].ResCoeffQ, v.CodedRes[c].ResCoeffR = q, r
+					if q != 0 || r != 0 {
+						v.CodedRes[c].ResCoeffS = ctl>>(1+uint(c))&1 != 0
+					}
+				}
+			}
+		}
+		return o
+	}
+	root := gen(0)
+	cm.Octants = nalgen.HEVCCmOctantMap(cm, &root)
+	e.ColourMappingTable = cm
+	return e, &root
+}
+
+// ---------------------------------------------------------------------------------------------
+// pps_3d_extension (I.7.3.2.3.7), delta_dlt (I.7.3.2.3.8)
+
+// hevc3dListBits bounds the bits of all dlt_value_flag / delta_val_diff_minus_min lists of one PPS (the NAL
+// unit has to fit the 16-bit length field of an hvcC array entry).
+const hevc3dListBits = 1 << 17
+
+// HEVCGenDeltaDlt draws delta_dlt() for depth values of depthBits bits. budget is the number of list bits left.
+func HEVCGenDeltaDlt(t *rapid.T, depthBits int, wide bool, budget *int, l string) *hevc.DeltaDlt {
+	d := &hevc.DeltaDlt{}
+	maxV := int64(1)<<uint(depthBits) - 1
+	// num_val_delta_dlt: 0, 1, 2, 3, small, large up to 2^depthBits − 1
+	k := HEVCUni(t, 8, l+"n?")
+	if wide && k >= 2 && HEVCPct(t, 60, l+"nbig") {
+		k = 7
+	}
+	var num int64
+	switch k {
+	case 0, 1, 2, 3:
+		num = int64(k)
+	case 4:
+		num = int64(rapid.IntRange(4, 16).Draw(t, l+"n"))
+	case 5:
+		num = HEVCInt(t, 4, HEVCMin64(maxV, 300), l+"n")
+	case 6:
+		num = HEVCInt(t, 0, maxV, l+"n")
+	default:
+		num = maxV - int64(rapid.IntRange(0, 3).Draw(t, l+"nmax"))
+	}
+	d.NumValDeltaDlt = uint(num)
+	if num == 0 {
+		return d
+	}
+	if num > 1 {
+		// max_diff: 0, 1, 2, 3, anything
+		switch m := HEVCUni(t, 8, l+"md?"); {
+		case m < 4:
+			d.MaxDiff = uint(m)
+		case m < 6:
+			d.MaxDiff = uint(HEVCInt(t, 2, HEVCMin64(maxV, 40), l+"md"))
+		default:
+			d.MaxDiff = uint(HEVCInt(t, 0, maxV, l+"md"))
+		}
+	}
+	// min_diff_minus1 (0..max_diff − 1) is coded for num_val_delta_dlt > 2 && max_diff > 0, else inferred max_diff − 1
+	// (for max_diff = 0 the inferred value −1 is what an unsigned field holds after wrapping: all ones)
+	d.MinDiffMinus1 = d.MaxDiff - 1
+	if num > 2 && d.MaxDiff > 0 {
+		switch m := HEVCUni(t, 6, l+"mn?"); {
+		case m < 2 || wide && m < 4: // minDiff = max_diff: delta_val_diff_minus_min has zero width, nothing is coded
+		case m < 4:
+			d.MinDiffMinus1 = 0
+		default:
+			d.MinDiffMinus1 = uint(HEVCInt(t, 0, int64(d.MaxDiff)-1, l+"mn"))
+		}
+	}
+	d.DeltaDltVal0 = uint(HEVCInt(t, 0, maxV, l+"v0"))
+	_, elemBits, _, numElems := nalgen.HEVCDeltaDltWidths(uint64(d.NumValDeltaDlt), uint64(d.MaxDiff), uint64(d.MinDiffMinus1))
+	if numElems == 0 {
+		return d
+	}
+	if need := numElems * uint64(elemBits); need > uint64(*budget) {
+		// fewer values, or (with less than two elements' worth of budget) the zero-width form
+		fit := uint64(*budget) / uint64(elemBits)
+		if fit < 2 {
+			d.MinDiffMinus1 = d.MaxDiff - 1
+			return d
+		}
+		numElems = fit
+		d.NumValDeltaDlt = uint(fit + 1)
+	}
+	*budget -= int(numElems) * elemBits
+	span := int64(d.MaxDiff - (d.MinDiffMinus1 + 1)) // delta_val_diff_minus_min: 0..max_diff − minDiff
+	nd := int(numElems)
+	if nd > 24 {
+		nd = 24
+	}
+	seed := make([]uint, nd)
+	for i := range seed {
+		seed[i] = uint(HEVCInt(t, 0, span, l+"dv"))
+	}
+	d.DeltaValDiffMinusMin = make([]uint, numElems)
+	for i := range d.DeltaValDiffMinusMin {
+		d.DeltaValDiffMinusMin[i] = seed[i%nd]
+	}
+	return d
+}
+
+func HEVCMin64(a, b int64) int64 {
+	if a < b {
+		return a
+	}
+	return b
+}
+
+// HEVCGenPPS3dExt draws pps_3d_extension().
+func HEVCGenPPS3dExt(t *rapid.T, l string) *hevc.D3Extension {
+	e := &hevc.D3Extension{}
+	e.DltsPresentFlag = HEVCPct(t, 85, l+"dlts")
+	if !e.DltsPresentFlag {
+		return e
+	}
+	// pps_depth_layers_minus1 u(6): small mostly, sometimes up to 63
+	switch k := HEVCUni(t, 10, l+"nl?"); {
+	case k < 4:
+		e.NumDepthLayersMinus1 = 0
+	case k < 8:
+		e.NumDepthLayersMinus1 = uint8(rapid.IntRange(1, 3).Draw(t, l+"nl"))
+	default:
+		e.NumDepthLayersMinus1 = uint8(HEVCInt(t, 0, 63, l+"nl"))
+	}
+	// pps_bit_depth_for_depth_layers_minus8 u(4): 8-bit depth mostly; "wide" (>= 16 bits) in a fifth of the cases
+	wide := false
+	switch k := HEVCUni(t, 10, l+"bd?"); {
+	case k < 4:
+		e.BitDepthForDepthLayersMinus8 = 0
+	case k < 6:
+		e.BitDepthForDepthLayersMinus8 = uint8(rapid.IntRange(1, 4).Draw(t, l+"bd"))
+	case k < 8:
+		e.BitDepthForDepthLayersMinus8 = uint8(HEVCInt(t, 0, 15, l+"bd"))
+	default:
+		e.BitDepthForDepthLayersMinus8 = uint8(rapid.IntRange(8, 15).Draw(t, l+"bd"))
+		wide = true
+	}
+	depthBits := int(e.BitDepthForDepthLayersMinus8) + 8
+	budget := hevc3dListBits
+	for i := 0; i <= int(e.NumDepthLayersMinus1); i++ {
+		var ly hevc.DepthLayer
+		ly.DltFlag = HEVCPct(t, 75, l+"dlt")
+		if ly.DltFlag {
+			ly.DltPredFlag = HEVCPct(t, 35, l+"pred")
+			if !ly.DltPredFlag {
+				// dlt_value_flag[ i ][ j ] for j = 0..depthMaxValue: 2^depthBits flags
+				ly.DltValFlagsPresentFlag = depthBits <= 17 && 1<<uint(depthBits) <= budget && HEVCPct(t, 45, l+"vf")
+			}
+			if ly.DltValFlagsPresentFlag {
+				n := 1 << uint(depthBits)
+				budget -= n
+				pat := HEVCBytes(t, 1+rapid.IntRange(0, 32).Draw(t, l+"vfn"), l+"vfpat")
+				switch rapid.IntRange(0, 3).Draw(t, l+"vfstyle") {
+				case 0:
+					pat = []byte{0}
+				case 1:
+					pat = []byte{0xff}
+				}
+				ly.DltValueFlag = make([]bool, n)
+				for j := range ly.DltValueFlag {
+					ly.DltValueFlag[j] = pat[j/8%len(pat)]>>uint(7-j%8)&1 != 0
+				}
+			} else {
+				ly.DeltaDlt = HEVCGenDeltaDlt(t, depthBits, wide, &budget, l+"dd")
+			}
+		}
+		e.DepthLayers = append(e.DepthLayers, ly)
+	}
+	return e
+}
+
 func HEVCPPSClasses(tr *nalgen.HEVCPPSTree) []string {
 	p := &tr.PPS
 	var c []string
@@ -1080,6 +1426,65 @@ func HEVCPPSClasses(tr *nalgen.HEVCPPSTree) []string {
 		add(p.TransformSkipEnabledFlag, "hevc-pps-range-ext-transform-skip-size")
 		add(e.ChromaQpOffsetListEnabledFlag, "hevc-pps-range-ext-chroma-qp-offset-list")
 	}
+	add(p.MultilayerExtensionFlag, "hevc-pps-multilayer-ext")
+	if e := p.MultilayerExtension; e != nil {
+		add(e.InferScalingListFlag, "hevc-pps-multilayer-infer-scaling-list")
+		add(e.NumRefLocOffsets > 0, "hevc-pps-multilayer-ref-loc-offsets")
+		add(e.NumRefLocOffsets > 4, "hevc-pps-multilayer-ref-loc-offsets-5+")
+		add(e.ColourMappingEnabledFlag, "hevc-pps-cm-table")
+		if cm := e.ColourMappingTable; cm != nil {
+			c = append(c, fmt.Sprintf("hevc-pps-cm-depth-%d", cm.OctantDepth))
+			add(cm.OctantDepth > 0 && !nalgen.HEVCCmOctantHasSplit(cm, tr.CmOctants), "hevc-pps-cm-nosplit-at-depth")
+			add(nalgen.HEVCCmOctantHasSplit(cm, tr.CmOctants), "hevc-pps-cm-split")
+			add(cm.YPartNumLog2 > 0, "hevc-pps-cm-y-parts")
+			add(nalgen.HEVCCmResLsBits(cm) == 0, "hevc-pps-cm-res-ls-bits-0")
+			coded, sign := false, false
+			for _, k := range hevcSortedKeys(cm.Octants) {
+				for _, v := range cm.Octants[k] {
+					coded = coded || v.CodedResFlag
+					for _, r := range v.CodedRes {
+						sign = sign || r.ResCoeffS
+					}
+				}
+			}
+			add(coded, "hevc-pps-cm-coded-res")
+			add(sign, "hevc-pps-cm-res-sign")
+		}
+	}
+	add(p.D3ExtensionFlag, "hevc-pps-3d-ext")
+	if e := p.D3Extension; e != nil {
+		add(e.DltsPresentFlag, "hevc-pps-3d-dlts")
+		add(e.NumDepthLayersMinus1 > 3, "hevc-pps-3d-layers-5+")
+		add(e.BitDepthForDepthLayersMinus8 >= 8, "hevc-pps-3d-bitdepth-16+")
+		// one label per PPS, whatever the number of depth layers that take the branch
+		var pred, valFlags, dd, num0, num12, minCoded, zeroWidth, zeroWidthBig, list, list17 bool
+		for i := range e.DepthLayers {
+			ly := &e.DepthLayers[i]
+			pred = pred || ly.DltFlag && ly.DltPredFlag
+			valFlags = valFlags || ly.DltValFlagsPresentFlag
+			if d := ly.DeltaDlt; d != nil {
+				dd = true
+				num0 = num0 || d.NumValDeltaDlt == 0
+				num12 = num12 || d.NumValDeltaDlt == 1 || d.NumValDeltaDlt == 2
+				_, _, coded, numElems := nalgen.HEVCDeltaDltWidths(uint64(d.NumValDeltaDlt), uint64(d.MaxDiff), uint64(d.MinDiffMinus1))
+				minCoded = minCoded || coded
+				zeroWidth = zeroWidth || coded && numElems == 0
+				zeroWidthBig = zeroWidthBig || numElems == 0 && d.NumValDeltaDlt >= 1<<15 // min_diff_minus1 coded or max_diff = 0
+				list = list || numElems > 0
+				list17 = list17 || numElems > 16
+			}
+		}
+		add(pred, "hevc-pps-3d-dlt-pred")
+		add(valFlags, "hevc-pps-3d-dlt-value-flags")
+		add(dd, "hevc-pps-3d-deltadlt")
+		add(num0, "hevc-pps-3d-deltadlt-num-0")
+		add(num12, "hevc-pps-3d-deltadlt-num-1-2")
+		add(minCoded, "hevc-pps-3d-deltadlt-min-diff-coded")
+		add(zeroWidth, "hevc-pps-3d-deltadlt-zero-width")
+		add(zeroWidthBig, "hevc-pps-3d-deltadlt-zero-width-num-32768+")
+		add(list, "hevc-pps-3d-deltadlt-list")
+		add(list17, "hevc-pps-3d-deltadlt-list-17+")
+	}
 	add(p.SccExtensionFlag, "hevc-pps-scc-ext")
 	if e := p.SccExtension; e != nil {
 		add(e.CurrPicRefEnabledFlag, "hevc-pps-scc-curr-pic-ref")
@@ -1090,6 +1495,15 @@ func HEVCPPSClasses(tr *nalgen.HEVCPPSTree) []string {
 	}
 	add(p.Extension4bits != 0, "hevc-pps-extension-4bits-data")
 	return c
+}
+
+func hevcSortedKeys(m map[string][4]hevc.Octant) []string {
+	ks := make([]string, 0, len(m))
+	for k := range m {
+		ks = append(ks, k)
+	}
+	sort.Strings(ks)
+	return ks
 }
 
 func HEVCGenVPS(t *rapid.T, sps *hevc.SPS, l string) *nalgen.HEVCVPSTree {
